@@ -57,6 +57,7 @@ type VerifRec struct {
 	Wild   bool   // "*." + Dom
 	Loc    []byte // nil or 2 bytes
 	TTL    uint32
+	DefTTL bool   // text mode: leave the TTL field empty (the documented default applies)
 	Target []byte // NS / CNAME / MX host, SOA primary
 	IP     []byte // 4 or 16 bytes
 	Weight uint32
@@ -147,7 +148,9 @@ func VerifRecLine(r VerifRec) []byte {
 	name := func() { out = verifTextName(out, r.Dom, r.Wild) }
 	sep := func() { out = append(out, ',') }
 	tail := func() { // ttl,timestamp,lo
-		out = verifTextUint(out, uint64(r.TTL))
+		if !r.DefTTL {
+			out = verifTextUint(out, uint64(r.TTL))
+		}
 		sep()
 		sep()
 		out = verifTextLoc(out, r.Loc)
